@@ -70,5 +70,19 @@ def search(ctx, scale, hints):
             encs[o] = key
     return fails
 
+def always(ctx, scale):
+    """the size query agrees with what the writers emit: 32 bytes for every element and affine point (ark build)"""
+    pool = Pool('ark', ctx.rng.fork('sizes'), n_rand=2); lines = []; fails = []
+    for c in [IDENT, T2REP] + pool.base[:2] + pool.derived[:2]:
+        if not pyref.valid(c): continue
+        lines += ['el.serialized_size %s' % E(c), 'el.ser %s' % E(c), 'af.serialized_size %s' % Af(pyref.aff(c)), 'af.ser %s' % Af(pyref.aff(c))]
+    out = harness.run_script('ark', lines)
+    for j in range(0, len(lines), 2):
+        size, ser = out[j], out[j + 1]
+        n = len(ser.split()[-1]) // 2 if ser.split() and ser.split()[-1] != '-' else 0
+        if size != '32' or n != 32:
+            fails.append(('%s reports %s bytes, the writer emitted %d (32 expected)' % (lines[j].split()[0], size, n), {'build': 'ark', 'script': lines[j:j + 2], 'output': out[j:j + 2]}, {'class': 'size', 'op': lines[j].split()[0]}))
+    return len(lines), fails
+
 def run_check(ctx):
-    run_property(ctx, 'Props.C03', VO, FILES, build_scripts, search, 'C03 (canonical encoding) is no longer shown to hold')
+    run_property(ctx, 'Props.C03', VO, FILES, build_scripts, search, 'C03 (canonical encoding) is no longer shown to hold', always=always)
